@@ -1756,15 +1756,17 @@ OptResult NifFile::OptimizeFor(OptOptions& options) {
 										}
 
 										if (part.hasBoneIndices) {
+											// A partition can list fewer bones than its bone indices refer to
+											auto partBone = [&part](const uint8_t boneIndex) {
+												return boneIndex < part.bones.size() ? static_cast<uint8_t>(part.bones[boneIndex])
+																					 : static_cast<uint8_t>(0);
+											};
+
 											auto& boneIndices = part.boneIndices[i];
-											vertex.weightBones[0] = static_cast<uint8_t>(
-												part.bones[boneIndices.i1]);
-											vertex.weightBones[1] = static_cast<uint8_t>(
-												part.bones[boneIndices.i2]);
-											vertex.weightBones[2] = static_cast<uint8_t>(
-												part.bones[boneIndices.i3]);
-											vertex.weightBones[3] = static_cast<uint8_t>(
-												part.bones[boneIndices.i4]);
+											vertex.weightBones[0] = partBone(boneIndices.i1);
+											vertex.weightBones[1] = partBone(boneIndices.i2);
+											vertex.weightBones[2] = partBone(boneIndices.i3);
+											vertex.weightBones[3] = partBone(boneIndices.i4);
 										}
 									}
 								}
@@ -1958,6 +1960,28 @@ OptResult NifFile::OptimizeFor(OptOptions& options) {
 				if (shape->IsSkinned()) {
 					auto skinInst = hdr.GetBlock<NiSkinInstance>(shape->SkinInstanceRef());
 					if (skinInst) {
+						auto skinData = hdr.GetBlock(skinInst->dataRef);
+						if (skinData && !skinData->hasVertWeights) {
+							// The weights are only stored in the vertex data of the shape, LE reads them from NiSkinData
+							for (auto& bone : skinData->bones) {
+								bone.vertexWeights.clear();
+								bone.numVertices = 0;
+							}
+
+							for (size_t vi = 0; vi < bsTriShape->vertData.size(); vi++) {
+								auto& vertex = bsTriShape->vertData[vi];
+								for (size_t wi = 0; wi < 4; wi++) {
+									if (vertex.weights[wi] != 0.0f && vertex.weightBones[wi] < skinData->bones.size()) {
+										auto& bone = skinData->bones[vertex.weightBones[wi]];
+										bone.vertexWeights.emplace_back(static_cast<uint16_t>(vi), vertex.weights[wi]);
+										bone.numVertices++;
+									}
+								}
+							}
+
+							skinData->hasVertWeights = 1;
+						}
+
 						auto skinPart = hdr.GetBlock(skinInst->skinPartitionRef);
 						if (skinPart) {
 							bool triangulated = skinPart->ConvertStripsToTriangles();
@@ -2305,7 +2329,7 @@ bool NifFile::RenameDuplicateShapes() {
 				if (duped) {
 					std::string dup = "_" + std::to_string(dupCount);
 
-					while (countDupes(node, shapeName + dup) > 1) {
+					while (countDupes(node, shapeName + dup) > 0) {
 						dupCount++;
 						dup = "_" + std::to_string(dupCount);
 					}
